@@ -301,7 +301,35 @@ class CapEval:
             return self._load_sub(n)
         if isinstance(n, ast.Call):
             return self._call(n)
+        if isinstance(n, ast.IfExp):
+            c = self._truth(self.ev(n.test))
+            if isinstance(c, bool):
+                return self.ev(n.body if c else n.orelse)
+            return Opaque('conditional expression on a non-constant test')
         return Opaque(type(n).__name__)
+
+    @staticmethod
+    def _truth(v):
+        if isinstance(v, bool):
+            return v
+        if isinstance(v, Poly) and v.is_const():
+            return v.const_value() != 0
+        return None
+
+    def _iter_values(self, it):
+        """Concrete values of a constant iterable (range of constants, literal tuple/list), or None."""
+        if isinstance(it, ast.Call) and dotted(it.func) == 'range' and 1 <= len(it.args) <= 3 and not it.keywords:
+            a = [self.ev(x) for x in it.args]
+            if all(isinstance(x, Poly) and x.is_const() and x.const_value().denominator == 1 for x in a):
+                k = [int(x.const_value()) for x in a]
+                r = range(*k) if not (len(k) == 3 and k[2] == 0) else None
+                if r is not None and len(r) <= 256:
+                    return [Poly.const(i) for i in r]
+            return None
+        if isinstance(it, (ast.Tuple, ast.List)):
+            v = self.ev(it)
+            return list(v)
+        return None
 
     def _v3op(self, n, a, b):
         if isinstance(a, V3) and isinstance(b, V3):
@@ -450,6 +478,7 @@ class CapEval:
                 break
 
     def stmt(self, s):
+        self.cur = s
         if isinstance(s, ast.Expr):
             return
         if isinstance(s, ast.Return):
@@ -494,11 +523,30 @@ class CapEval:
             if isinstance(s.target, ast.Subscript) and isinstance(s.target.value, ast.Name):
                 return self._store(s, s.target, fake, None)
         if isinstance(s, ast.If):
-            c = self.ev(s.test)
+            c = self._truth(self.ev(s.test))
             if isinstance(c, bool):
                 for b in (s.body if c else s.orelse):
                     self.stmt(b)
                 return
+        if isinstance(s, ast.For) and not s.orelse and not any(isinstance(x, (ast.Break, ast.Continue, ast.Return)) for x in ast.walk(s)):
+            vals = self._iter_values(s.iter)
+            tg = s.target
+            names = [tg] if isinstance(tg, ast.Name) else (list(tg.elts) if isinstance(tg, ast.Tuple) and all(isinstance(e, ast.Name) for e in tg.elts) else None)
+            if vals is not None and names is not None:
+                for v in vals:
+                    if isinstance(tg, ast.Name):
+                        self.env[tg.id] = v
+                    elif isinstance(v, tuple) and len(v) == len(names):
+                        for e, x in zip(names, v):
+                            self.env[e.id] = x
+                    else:
+                        self.problem(s, f'loop target does not match the iterated value: {unparse(s)[:80]}')
+                        return
+                    for b in s.body:
+                        self.stmt(b)
+                return
+        if isinstance(s, ast.Pass):
+            return
         self.problem(s, f'statement not understood: {unparse(s)[:80]}')
 
     def _store(self, s, t, value_node, _):
